@@ -490,6 +490,32 @@ mut('c20-filter-tombstones', 'C20', 'C20.H.selection_value_blind', dirf, '''    
                 .filter(|vs| vs.value.0 != crate::TOMBSTONE)
                 .take(n)
                 .collect::<Vec<_>>(),''', 'tombstoned states left out of MostRecent(n) (seed C20-r1-b)', also=['C03'])
+mut('c18-key-len', 'C18', 'C18.K.len_exact[VRFPublicKey]', 'akd_core/src/ecvrf/ecvrf_impl.rs', '''        if bytes.len() != PUBLIC_KEY_LENGTH {
+            return Err(VrfError::PublicKey("Wrong length".to_string()));''', '''        if bytes.len() < PUBLIC_KEY_LENGTH {
+            return Err(VrfError::PublicKey("Wrong length".to_string()));''', 'over-long key read as its 32-byte prefix (seed C18-r1-b)')
+mut('c19-digest-len', 'C19', 'C19', 'akd_core/src/hash/mod.rs', '''    if value.len() != DIGEST_BYTES {''', '''    if value.len() < DIGEST_BYTES {''', 'digest length guard weakened (copy_from_slice panics on longer input)')
+mut('c10-set-early-return', 'C10', 'C10.ORDER.write_unconditional[batch_set]', mgr, '''        // we're in a transaction, set the items in the transaction
+        if self.is_transaction_active() {
+            self.transaction.batch_set(&records);
+            return Ok(());
+        }
+''', '''        // we're in a transaction, set the items in the transaction
+        if self.is_transaction_active() {
+            self.transaction.batch_set(&records);
+            return Ok(());
+        }
+        if records.len() > 100_000 {
+            debug!("Refusing to write an oversized batch");
+            return Ok(());
+        }
+''', 'write silently skipped under a condition', also=['C16', 'C15'])
+mut('c01-set-child-shortcut', 'C01', 'C01.R.set_child_unconditional', tn, '''        // Set child according to given direction.
+        match self.label.get_prefix_ordering(child_node.label) {''', '''        if self.left_child == Some(child_node.label) || self.right_child == Some(child_node.label) {
+            // already linked
+            return Ok(());
+        }
+        // Set child according to given direction.
+        match self.label.get_prefix_ordering(child_node.label) {''', 'set_child returns early for an already linked child (epoch bookkeeping skipped)', also=['C04'])
 
 out = [m for m in M if not m.get('disabled')]
 json.dump({'mutants': out}, open(os.path.join(os.path.dirname(os.path.abspath(__file__)), 'mutants.json'), 'w'), indent=1)
